@@ -175,6 +175,14 @@ func shortTag(id uint16, name, field string, pick func(rng *rand.Rand) uint16) t
 	}}
 }
 
+// short2Tag: a SHORT field with count 2 that fills the 4-byte slot (legal for the "any count" fields); the first value is reported.
+func short2Tag(id uint16, name, field string) tagSpec {
+	return tagSpec{id, name, func(rng *rand.Rand, size int) (LVal, map[string]interface{}) {
+		v, w := any16(rng), any16(rng)
+		return LVal{Typ: tShort, Shorts: []uint16{v, w}}, map[string]interface{}{field: float64(v)}
+	}}
+}
+
 func longTag(id uint16, name, field string, max uint32) tagSpec {
 	return tagSpec{id, name, func(rng *rand.Rand, size int) (LVal, map[string]interface{}) {
 		v := 1 + uint32(rng.Int63n(int64(max)))
@@ -252,19 +260,21 @@ func subsecTag(id uint16, name, field string) tagSpec {
 
 var catalog = map[string]map[string][]tagSpec{
 	"IFD0": {
-		"embShort": {shortTag(0x0112, "Orientation", "Orientation", oneOf(1, 2, 3, 4, 5, 6, 7, 8)), shortTag(0x0100, "ImageWidth", "ImageWidth", any16), shortTag(0x0101, "ImageLength", "ImageHeight", any16)},
-		"embLong":  {longTag(0x0100, "ImageWidth", "ImageWidth", 65535), longTag(0x0101, "ImageLength", "ImageHeight", 65535), longTag(0x0111, "StripOffsets", "StripOffsets", 1<<31), longTag(0x0117, "StripByteCounts", "StripByteCounts", 1<<31)},
-		"embAscii": {strTag(0x0131, "Software", "Software"), strTag(0x013b, "Artist", "Artist"), strTag(0x8298, "Copyright", "Copyright"), strTag(0x010e, "ImageDescription", "ImageDescription")},
-		"ascii":    {strTag(0x010f, "Make", "Make"), strTag(0x0110, "Model", "Model"), strTag(0x0131, "Software", "Software"), strTag(0x013b, "Artist", "Artist"), strTag(0x8298, "Copyright", "Copyright"), strTag(0x010e, "ImageDescription", "ImageDescription"), strTag(0xc62f, "CameraSerialNumber", "CameraSerial")},
-		"date":     {dateTag(0x0132, "DateTime", "ModifyDate")},
+		"embShort":  {shortTag(0x0112, "Orientation", "Orientation", oneOf(1, 2, 3, 4, 5, 6, 7, 8)), shortTag(0x0100, "ImageWidth", "ImageWidth", any16), shortTag(0x0101, "ImageLength", "ImageHeight", any16)},
+		"embLong":   {longTag(0x0100, "ImageWidth", "ImageWidth", 65535), longTag(0x0101, "ImageLength", "ImageHeight", 65535), longTag(0x0111, "StripOffsets", "StripOffsets", 1<<31), longTag(0x0117, "StripByteCounts", "StripByteCounts", 1<<31)},
+		"embShort2": {short2Tag(0x0111, "StripOffsets", "StripOffsets"), short2Tag(0x0117, "StripByteCounts", "StripByteCounts")},
+		"embAscii":  {strTag(0x0131, "Software", "Software"), strTag(0x013b, "Artist", "Artist"), strTag(0x8298, "Copyright", "Copyright"), strTag(0x010e, "ImageDescription", "ImageDescription")},
+		"ascii":     {strTag(0x010f, "Make", "Make"), strTag(0x0110, "Model", "Model"), strTag(0x0131, "Software", "Software"), strTag(0x013b, "Artist", "Artist"), strTag(0x8298, "Copyright", "Copyright"), strTag(0x010e, "ImageDescription", "ImageDescription"), strTag(0xc62f, "CameraSerialNumber", "CameraSerial")},
+		"date":      {dateTag(0x0132, "DateTime", "ModifyDate")},
 	},
 	"Exif": {
 		"embLong": {longTag(0xa002, "PixelXDimension", "ImageWidth", 65535), longTag(0xa003, "PixelYDimension", "ImageHeight", 65535)},
 		"embShort": {shortTag(0x8822, "ExposureProgram", "ExposureProgram", oneOf(0, 1, 2, 3, 4, 5, 6, 7, 8, 9)), shortTag(0x8827, "ISOSpeedRatings", "ISOSpeed", any16),
 			shortTag(0x9207, "MeteringMode", "MeteringMode", oneOf(0, 1, 2, 3, 4, 5, 6, 255)), shortTag(0x9209, "Flash", "Flash", oneOf(0, 1, 5, 7, 8, 9, 13, 15, 16, 24, 25, 29, 31, 32, 65, 69, 71, 73, 77, 79, 89, 93, 95)),
 			shortTag(0xa402, "ExposureMode", "ExposureMode", oneOf(0, 1, 2)), shortTag(0xa405, "FocalLengthIn35mmFilm", "FocalLengthIn35mmFormat", any16)},
-		"embAscii": {subsecTag(0x9290, "SubSecTime", "ModifyDate"), subsecTag(0x9291, "SubSecTimeOriginal", "DateTimeOriginal"), subsecTag(0x9292, "SubSecTimeDigitized", "CreateDate")},
-		"rat":      {ratTag(0x829a, "ExposureTime", "ExposureTime"), ratTag(0x829d, "FNumber", "FNumber"), ratTag(0x920a, "FocalLength", "FocalLength")},
+		"embShort2": {short2Tag(0x8827, "ISOSpeedRatings", "ISOSpeed")},
+		"embAscii":  {subsecTag(0x9290, "SubSecTime", "ModifyDate"), subsecTag(0x9291, "SubSecTimeOriginal", "DateTimeOriginal"), subsecTag(0x9292, "SubSecTimeDigitized", "CreateDate")},
+		"rat":       {ratTag(0x829a, "ExposureTime", "ExposureTime"), ratTag(0x829d, "FNumber", "FNumber"), ratTag(0x920a, "FocalLength", "FocalLength")},
 		"srat": {{0x9204, "ExposureBiasValue", func(rng *rand.Rand, size int) (LVal, map[string]interface{}) {
 			n, d := rng.Intn(256)-128, 1+rng.Intn(127)
 			return LVal{Typ: tSRational, Rats: [][2]uint32{{uint32(int32(n)), uint32(d)}}}, map[string]interface{}{"ExposureBias": float64(int16(n)<<8 + int16(d))}
@@ -365,6 +375,16 @@ func BindCase(c *ExifCase, rng *rand.Rand) (map[int]*Bound, error) {
 	used := map[string]bool{}
 	usedField := map[string]bool{}
 	bulkID := uint16(0xc000)
+	// a class with a single candidate tag keeps it: other classes of the record that could also use the id leave it alone
+	reserved := map[string]int{}
+	for _, dir := range []string{"IFD0", "Exif", "GPS"} {
+		for _, e := range c.Dirs[dir] {
+			ck, _ := classKey(e.Cls)
+			if specs := catalog[dir][ck]; len(specs) == 1 {
+				reserved[fmt.Sprintf("%s/%04x", dir, specs[0].id)] = e.Key
+			}
+		}
+	}
 	for _, dir := range []string{"IFD0", "Exif", "GPS"} {
 		for _, e := range c.Dirs[dir] {
 			switch e.Cls {
@@ -413,7 +433,7 @@ func BindCase(c *ExifCase, rng *rand.Rand) (map[int]*Bound, error) {
 			for try := 0; try < 50 && pick == nil; try++ {
 				s := &specs[rng.Intn(len(specs))]
 				k := fmt.Sprintf("%s/%04x", dir, s.id)
-				if used[k] {
+				if owner, ok := reserved[k]; used[k] || (ok && owner != e.Key) {
 					continue
 				}
 				pick = s
